@@ -49,7 +49,7 @@ def find_impl(toks, header):
     s = sigidx(toks)
     for a, k in enumerate(s):
         t = toks[k]
-        if t.kind == 'ident' and t.text == 'impl':
+        if t.kind == 'ident' and t.text in ('impl', 'trait'):
             # header runs to first '{' at angle/paren depth 0
             acc = []
             b = a
